@@ -15,6 +15,7 @@ func extractAll(repo string, o *out) {
 	extractAPI(repo, o)
 	extractClient(repo, o)
 	extractProxy(repo, o)
+	extractConc(repo, o)
 }
 
 // emit writes  Definition name params : ty := body.  or, when body is empty, the last-known value.
